@@ -113,9 +113,17 @@ def norm(v):
 def inputs(names_all):
     for n in range(0, 6):
         yield ['P%d' % i for i in range(n)]
+    # JSON null / falsy values as arguments (must arrive as given, never be replaced by a default)
+    for n in range(1, 4):
+        for pos in range(n):
+            for v in (None, 0, ''):
+                yield [v if i == pos else 'P%d' % i for i in range(n)]
     for r in range(0, len(names_all) + 1):
         for sub in itertools.combinations(names_all, r):
             yield {k: 'N_%s' % k for k in sub}
+            if 1 <= r <= 2:
+                for v in (None, 0):
+                    yield {k: (v if i == 0 else 'N_%s' % k) for i, k in enumerate(sub)}
 
 
 def special(sig):
